@@ -112,6 +112,20 @@ MUTATIONS = {
     'M20_pow_base': ('C20_f5_3', CONV, 'return 10**(valueIndB / 10.0)', 'return 2**(valueIndB / 10.0)', 'dB2Linear base'),
     'M20_pow_swapped': ('C20_f5_3', CONV, 'return 10**(valueIndB / 10.0)', 'return (valueIndB / 10.0)**10', 'base and exponent swapped'),
     'M01_energy': ('C16_2', FUND, 'average_energy = 2.0 * (M - 1) / 3.0', 'average_energy = 2.0 * (M + 1) / 3.0', 'QAM average energy'),
+    # ---- C01 QAM grid built without loops
+    'MV_transposed': ('C16_3', FUND, 'symbols.real = np.tile(levels, L)\n        symbols.imag = np.repeat(-levels, L)',
+                      'symbols.real = np.repeat(levels, L)\n        symbols.imag = np.tile(-levels, L)', 'grid transposed'),
+    'MV_no_minus': ('C16_3', FUND, 'symbols.imag = np.repeat(-levels, L)', 'symbols.imag = np.repeat(levels, L)',
+                    'imaginary part increases with the row'),
+    'MV_arange_stop': ('C01_1', FUND, 'levels = np.arange(-(L - 1), L, 2)', 'levels = np.arange(-(L - 1), L - 1, 2)',
+                       'one level missing (shape error at run time)'),
+    'MV_arange_start': ('C01_1', FUND, 'levels = np.arange(-(L - 1), L, 2)', 'levels = np.arange(-L, L, 2)', 'levels shifted by one'),
+    'MV_meshgrid_order': ('C01_1', FUND, 'np.meshgrid(levels, levels[::-1])', 'np.meshgrid(levels[::-1], levels)', 'both axes mirrored'),
+    'MV_no_reverse': ('C01_1', FUND, 'np.meshgrid(levels, levels[::-1])', 'np.meshgrid(levels, levels)', 'imaginary axis mirrored'),
+    'MV_reshape_swapped': ('C15_1', FUND, 'grid.real = levels.reshape(1, L)\n        grid.imag = -levels.reshape(L, 1)',
+                           'grid.real = levels.reshape(L, 1)\n        grid.imag = -levels.reshape(1, L)', 'grid transposed'),
+    'MV_scale': ('C15_1', FUND, 'levels = 2 * np.arange(0, L, dtype=int) - (L - 1)', 'levels = 2 * np.arange(0, L, dtype=int) - L',
+                 'levels shifted by one'),
     # ---- C01 PSK / C19
     'M01_exp_conj': ('C15_3', FUND, 'unit_circle = np.exp(1j * phases)', 'unit_circle = np.exp(-1j * phases)', 'clockwise constellation'),
     'M01_parts_swapped': ('C15_3', FUND, 'np.abs(unit_circle.real) < 1e-15, 0., unit_circle.real)',
